@@ -16,6 +16,13 @@ def regen(ctx):
         ctx.translator("C11/Gen.v", st)
     except (py2coq.Untranslatable, OSError, SyntaxError) as e:
         ctx.translator("C11/Gen.v", "fallback: %s" % e)
+        # fail closed: the theorems would otherwise keep speaking about the snapshot of a source that changed
+        ctx.obligation_broken("C11: regeneration of C11/Gen.v (codec in cffi_opcode.py, record emitters in recompiler.py, "
+                              "decoder texts / ffiobj_init sign-value statements in src/c no longer have the recorded "
+                              "shape)", str(e))
+    # C11_global_lookup / C11_typename_lookup speak about the binary search regenerated from parse_c_type.c
+    from props import c25_regen
+    c25_regen.regen_file(vlib, ctx, "C11")
 
 
 # --------------------------------------------------------------------------- generators
@@ -669,15 +676,26 @@ def run(ctx):
 
 MANIFEST = dict(
     technique="Coq proof of the 4-byte opcode codec (regenerated encoder, hand-modelled C decoder; bit-level, all "
-              "arguments) + differential correspondence on whole generated modules",
+              "arguments), composed with the regenerated binary search of C25 (lookup by name in the decoded tables) + "
+              "differential correspondence on whole generated modules",
     text="Proof: for every opcode < 256 and every 24-bit signed argument, the bytes written by the regenerated "
          "CffiOp.as_python_bytes/format_four_bytes are decoded by the model of cdl_4bytes/_CFFI_GETOP/_CFFI_GETARG to the "
          "same (op, arg); array lengths below 2^31, struct/field/enum/typename/global records with NUL-free names and "
-         "integer constants in [-2^63, 2^64) survive; the whole `_types` string of any list of ops and the whole `_globals` / "
-         "`_struct_unions` tuples decode to what they were built from (C11_types_table, C11_globals_table, "
-         "C11_struct_unions_table); the statement is refuted outside those ranges by computed "
-         "witnesses that are replayed on the implementation (known findings). Whole-module equivalence (types, fields, "
-         "constants, list_types, dlopen) is checked on random cdefs against the in-line FFI: partial (sampling).",
-    note="Trusted: Coq kernel; py2coq + shape checks; hand model of the C decoder (differentially tested against the "
-         "real C text and real modules); gcc semantics of signed <<; LP64. Module equivalence is sampled, not proved.",
+         "integer constants in [-2^63, 2^64) survive (C11_int_constant; C11_int_constant_regenerated states it with the "
+         "sign/value statements of ffiobj_init translated from cdlopen.c on every run); the whole `_types` string of any "
+         "list of ops and the whole `_globals` / `_struct_unions` tuples decode to what they were built from "
+         "(C11_types_table, C11_globals_table, C11_struct_unions_table); C11_global_lookup / C11_typename_lookup / "
+         "C11_sorted_table_lookup: for every list of records with distinct names, sorted on the name, emitted and decoded, "
+         "search_in_FIELD (C25.Gen.gen_search_in, regenerated from parse_c_type.c) finds every declared name at an index "
+         "whose decoded record is the declared one; the statement is refuted outside the ranges by computed witnesses "
+         "that are replayed on the implementation (known findings). Whole-module equivalence (types, fields, constants, "
+         "list_types, dlopen) is checked on random cdefs against the in-line FFI: partial (sampling).",
+    note="Regenerated: format_four_bytes, as_python_bytes holes, OP_/F_ tables, ffiobj_init neg/value expressions, "
+         "search_sorted/MAKE_SEARCH_FUNC (C25/Gen.v). Pinned by text (regeneration fails closed = broken obligation), not "
+         "translated: the record emitters of recompiler.py (encode_* are hand definitions in C11/Proofs.v), cdl_4bytes, "
+         "the record decoding statements of ffiobj_init, realize_global_int's switch. The sort of the tables is specified "
+         "as a stable insertion sort on byte order (sort_records), tied to list.sort only by the module correspondence. "
+         "Trusted: Coq kernel; py2coq + shape checks; hand model of the C decoder (differentially tested against the "
+         "real C text and real modules); gcc semantics of signed <<; LP64. Module equivalence (the headline clause: "
+         "typedefs/structs/enums/function types equal, list_types, dlopen) is sampled, not proved.",
     design_ref="DESIGN.md §4 C11")
